@@ -70,6 +70,10 @@ def _after(ctx, rate, exc):
         # the rate is an energy difference divided by (V*T): rounding in that difference is of the order of eps*capacity, which
         # short periods and low voltages amplify (measured on the unchanged tree: 3e-10 A at cap 1e3, T 0.1 min, V 100)
         tol_r += 64 * 2.3e-16 * float(cap) * 6e4 / (float(T) * float(V))
+        if float(cap) > 1e100:
+            # near the top of the float range the absolute floor above means nothing and the last place of the stored charge is
+            # 1e280 kWh and more: a 1e-12 share of the current that would fill the whole pack in one period
+            tol_r += 1e-12 * float(cap) * 6e4 / (float(T) * float(V))
     wit = dict(cls=type(b).__name__, pilot=p_f, voltage=V, period=T, rate=rate, charge_before=c0,
                charge_after=c1, capacity=cap, max_power=mp, power=pw,
                noise=getattr(b, "_noise_level", None), tsoc=getattr(b, "_transition_soc", None),
@@ -181,6 +185,11 @@ def _pilots(case, rng, b):
     exact = b["maxp"] * 1000.0 / V
     style = case.get("pilots")
     for _ in range(case["n"]):
+        if case.get("giant"):
+            # (pilots on the battery's own scale: an everyday 6 A against a 1e300 kWh pack is the conditioning corner of section 12)
+            c = rng.random()
+            yield 0 if c < 0.12 else exact if c < 0.35 else float(np.float64(rng.uniform(0, 2 * exact))) if c < 0.6 else rng.uniform(0.01, 1.5) * exact
+            continue
         if style == "small":
             yield rng.choice([4, 1, 8, 0.5, 16, 32])
         elif style == "max":
